@@ -120,9 +120,9 @@ impl PatchList {
         str.push_str("Content-Type: application/octet-stream\r\n");
         str.push_str(&format!("Content-Location: {}\r\n", self.content_location));
 
-        let mut total_patch_size = 0;
+        let mut total_patch_size: i64 = 0;
         for patch in &self.patches {
-            total_patch_size += patch.length;
+            total_patch_size = total_patch_size.saturating_add(patch.length);
         }
 
         str.push_str(&format!("X-Patch-Length: {}\r\n", total_patch_size));
@@ -161,11 +161,7 @@ impl PatchList {
                 str.push('\t');
 
                 // hashes
-                str.push_str(&patch.hashes[0]);
-                for hash in &patch.hashes[1..] {
-                    str.push(',');
-                    str.push_str(hash);
-                }
+                str.push_str(&patch.hashes.join(","));
                 str.push('\t');
             }
 
